@@ -369,11 +369,11 @@ def nontrivial(case):
 
 def subchecks(ctx):
     return [
-        Sub("spectrum", lagr().map(lambda p: {"p": p}), prop, {"quick": 250, "thorough": 8000},
+        Sub("spectrum", lagr().map(lambda p: {"p": p}), prop, {"quick": 1000, "thorough": 8000},
             nontrivial=nontrivial,
             classes=lambda c: ["mode:" + c["p"]["mode"], "gens:" + c["p"]["gmode"]],
             rule="Lagrangian parameter set; 17 sectors reconstructed against independently written mass matrices"),
-        Sub("genswap", swap_case(), prop_swap, {"quick": 150, "thorough": 4000},
+        Sub("genswap", swap_case(), prop_swap, {"quick": 600, "thorough": 4000},
             nontrivial=lambda c: True,
             classes=lambda c: ["swap:" + c["which"]],
             rule="parameter set and the same set with two generations exchanged; spectra must be exchanged bit-for-bit"),
